@@ -6,6 +6,7 @@ import ParryModel.C11.Theorems4
 import ParryModel.C11.Theorems5
 import ParryModel.C11.Theorems6
 import ParryModel.C11.Theorems7
+import ParryModel.C11.Theorems8
 /-!
 # C11 property theorems: TriMesh derived data always match the buffers
 
